@@ -285,9 +285,10 @@ k_powmod = lambda n, e, m: "e=0,|m|=1" if e == 0 and abs(m) == 1 else "other"
 for t in WT:
     sgn_e = t in ("i32", "i64")
     a3 = ["I", "pe_" + t, "I"]
-    V("powmod3_" + t, a3, o_powmod, fix=fix_powmod(sgn_e, False), margs=(lambda n, e, m: [0, n, e, m]) if sgn_e else None)
+    V("powmod3_" + t, a3, o_powmod, fix=fix_powmod(sgn_e, False))
     V("powmod_" + t, a3, o_powmod, fix=fix_powmod(sgn_e, False))
-V("powmod3_i64@self", ["I", "pe_i64", "I"], o_powmod, fix=fix_powmod(True, False), margs=lambda n, e, m: [n, n, e, m])
+V("powmod3_i64@self", ["I", "pe_i64", "I"], o_powmod, fix=fix_powmod(True, False))
+V("powmod3_i64@res_is_m", ["I", "pe_i64", "I"], o_powmod, fix=fix_powmod(True, False))
 V("powmod3_I", ["I", "N", "I"], o_powmod, fix=fix_powmod(False, True))
 V("powmod_I", ["I", "N", "I"], o_powmod, fix=fix_powmod(False, True))
 V("dom_powmod_i64", ["I", "pe_i64", "I"], o_powmod, fix=fix_powmod(True, False), margs=lambda n, e, m: [0, n, e, m])
@@ -295,9 +296,6 @@ V("dom_powmod_I", ["I", "N", "I"], o_powmod, fix=fix_powmod(False, True), margs=
 for nm, site in (("powmod_u64", "powmod(const Integer&,uint64_t,const Integer&)"), ("powmod_u32", "powmod(const Integer&,uint64_t,const Integer&)"),
                  ("powmod_I", "powmod(const Integer&,const Integer&,const Integer&)"), ("dom_powmod_I", "powmod(const Integer&,const Integer&,const Integer&)")):
     VARIANTS[nm].update(site=site, klass=k_powmod, weight=2)
-for nm in list(VARIANTS):
-    if nm.startswith(("powmod", "dom_powmod")) and VARIANTS[nm].get("margs") is None:
-        VARIANTS[nm].pop("margs", None)
 
 
 # ------------------------------------------------------------------ gcd / lcm / Bezout / inverse
